@@ -210,7 +210,7 @@ idl_a_demux_feed		(vbi_idl_demux *	dx,
 	flags = dx->flags | (ial & VBI_IDL_DEPENDENT);
 	dx->flags &= ~VBI_IDL_DATA_LOST;
 
-	return dx->callback (dx, buf, j, dx->flags, dx->user_data);
+	return dx->callback (dx, buf, j, flags, dx->user_data);
 }
 
 
@@ -288,6 +288,8 @@ vbi_idl_demux_reset		(vbi_idl_demux *	dx)
 
 	dx->ci = -1;
 	dx->ri = -1;
+
+	dx->flags = 0;
 }
 
 /**
